@@ -715,12 +715,12 @@ func init() {
 			Old: "\t\t\t\t\tif t.RawTaskInfo != nil {\n", New: "\t\t\t\t\tif t.RawTaskInfo == nil {\n", Expect: "O2.3"},
 		Variant{Name: "mutant: receiver dereferences a failed type assertion's value", Property: "C02", File: "proxy/proxy_streams.go",
 			Old: "\t\tif attr, ok := resp.GetAttributes().(*adminservice.StreamWorkflowReplicationMessagesResponse_Messages); ok && attr.Messages != nil {\n", New: "\t\tif attr, ok := resp.GetAttributes().(*adminservice.StreamWorkflowReplicationMessagesResponse_Messages); ok || attr.Messages != nil {\n", Expect: "O2.11"},
-		Variant{Name: "mutant: receiver Run returns without waiting for its workers", Property: "C04", File: "proxy/proxy_streams.go",
-			Old: "\twg.Wait()\n", New: "\t\n", Expect: "O4.13"},
-		Variant{Name: "mutant: receive worker never calls Done", Property: "C04", File: "proxy/proxy_streams.go",
-			Old: "\t\t\twg.Done()\n\t\t}()\n\t\t_ = r.recvReplicationMessages(sourceStreamClient, shutdownChan)\n", New: "\t\t\t\n\t\t}()\n\t\t_ = r.recvReplicationMessages(sourceStreamClient, shutdownChan)\n", Expect: "O4.13"},
-		Variant{Name: "mutant: receiver's stream context is never cancelled", Property: "C04", File: "proxy/proxy_streams.go",
-			Old: "\tdefer cancel()\n", New: "\t\n", Expect: "O4.14"},
+		Variant{Name: "mutant: receiver Run returns without waiting for its workers", Property: "C08", File: "proxy/proxy_streams.go",
+			Old: "\twg.Wait()\n", New: "\t\n", Expect: "O8.15"},
+		Variant{Name: "mutant: receive worker never calls Done", Property: "C08", File: "proxy/proxy_streams.go",
+			Old: "\t\t\twg.Done()\n\t\t}()\n\t\t_ = r.recvReplicationMessages(sourceStreamClient, shutdownChan)\n", New: "\t\t\t\n\t\t}()\n\t\t_ = r.recvReplicationMessages(sourceStreamClient, shutdownChan)\n", Expect: "O8.15"},
+		Variant{Name: "mutant: receiver's stream context is never cancelled", Property: "C08", File: "proxy/proxy_streams.go",
+			Old: "\tdefer cancel()\n", New: "\t\n", Expect: "O8.16"},
 		Variant{Name: "mutant: sender Run returns without closing its delivery channel", Property: "C03", File: "proxy/proxy_streams.go",
 			Old: "\tclose(s.sendMsgChan)\n", New: "\t\n", Expect: "O3.10"},
 		Variant{Name: "mutant: NotifyNewTargetShard no longer replays the pending watermark", Property: "C03", File: "proxy/proxy_streams.go",
@@ -748,7 +748,7 @@ func init() {
 			Old: "\t\t\t\t\tif lastExclusiveHighOriginal > 0 && min > lastExclusiveHighOriginal {\n", New: "\t\t\t\t\tif exceeds := min > lastExclusiveHighOriginal; lastExclusiveHighOriginal > 0 && exceeds {\n"},
 		Variant{Name: "benign: SetLocalAckChan releases its lock explicitly instead of with a defer", Property: "C08", File: shm, Benign: true,
 			Old: "\tsm.localAckChannelsMu.Lock()\n\tdefer sm.localAckChannelsMu.Unlock()\n\tsm.localAckChannels[shardID] = ackChan\n", New: "\tsm.localAckChannelsMu.Lock()\n\tsm.localAckChannels[shardID] = ackChan\n\tsm.localAckChannelsMu.Unlock()\n"},
-		Variant{Name: "benign: receive worker defers Done and the latch separately", Property: "C04", File: pst, Benign: true,
+		Variant{Name: "benign: receive worker defers Done and the latch separately", Property: "C08", File: pst, Benign: true,
 			Old: "\tgo func() {\n\t\tdefer func() {\n\t\t\tshutdownChan.Shutdown()\n\t\t\twg.Done()\n\t\t}()\n\t\t_ = r.recvReplicationMessages(sourceStreamClient, shutdownChan)\n", New: "\tgo func() {\n\t\tdefer wg.Done()\n\t\tdefer shutdownChan.Shutdown()\n\t\t_ = r.recvReplicationMessages(sourceStreamClient, shutdownChan)\n"},
 		Variant{Name: "benign: last task read through a length local", Property: "C02", File: pst, Benign: true,
 			Old: "\t\t\t\tproxyExclusiveHigh = m.Messages.ReplicationTasks[len(m.Messages.ReplicationTasks)-1].SourceTaskId + 1\n", New: "\t\t\t\tnTasks := len(m.Messages.ReplicationTasks)\n\t\t\t\tproxyExclusiveHigh = m.Messages.ReplicationTasks[nTasks-1].SourceTaskId + 1\n"},
